@@ -122,6 +122,7 @@ func (b *bucket) Walk(
 		return err
 	}
 	walkChecker := storageutil.NewWalkChecker()
+	prefixNotExist := false
 	var walkOptions []filepathext.WalkOption
 	if b.symlinks {
 		walkOptions = append(walkOptions, filepathext.WalkWithSymlinks())
@@ -130,9 +131,16 @@ func (b *bucket) Walk(
 		externalPrefix,
 		func(externalPath string, fileInfo os.FileInfo, err error) error {
 			if err != nil {
-				// this can happen if a symlink is broken
-				// in this case, we just want to continue the walk
-				if b.symlinks && os.IsNotExist(err) {
+				if os.IsNotExist(err) {
+					if externalPath == externalPrefix {
+						// the prefix itself does not exist
+						prefixNotExist = true
+						return err
+					}
+					// this can happen if a symlink is broken, or if an entry was removed
+					// after its directory was listed (a concurrent delete, the temporary
+					// file of an atomic put being renamed)
+					// in these cases, we just want to continue the walk
 					return nil
 				}
 				return err
@@ -169,7 +177,7 @@ func (b *bucket) Walk(
 		},
 		walkOptions...,
 	); err != nil {
-		if os.IsNotExist(err) {
+		if prefixNotExist {
 			// Should be a no-op according to the spec.
 			return nil
 		}
